@@ -6,7 +6,7 @@ Recursive-descent transcription of the statement rules of
 `qop`, `uop`, `anylist`, `argument`, `explist`).  The result keeps exactly what the visitor
 looks at.  Things the grammar accepts and the visitor ignores are kept visible:
 
-* `opaque …;` → `Stmt.opaque` (no visitor method),
+* `opaque …;` → `Stmt.opaqueDecl` (no visitor method),
 * `if (c == n) qop` → the `qop` itself (the visitor is a top-down walk over *all* subtrees, so
   the guarded operation is applied unconditionally),
 * `barrier`/`barrierp` inside a gate body → `BStmt.barrier` (inlined in `goplist`, no callback);
@@ -42,7 +42,7 @@ inductive Stmt (V : Type) where
   | qreg (name : String) (size : Nat)
   | creg (name : String) (size : Nat)
   | gatedecl (name : String) (params : List String) (qubits : List String) (body : List (BStmt V))
-  | opaque
+  | opaqueDecl
   | call (c : GCall V)
   | measure (q c : Arg)
   | reset (q : Arg)
@@ -243,7 +243,7 @@ def pStmt : P (Stmt V)
     (match pFormals r with
      | some (_, r') =>
        (match pIdList (r'.length + 1) r' with
-        | some (_, .sym ";" :: r'') => some (.opaque, r'')
+        | some (_, .sym ";" :: r'') => some (.opaqueDecl, r'')
         | _ => none)
      | none => none)
   | .kw "if" :: .sym "(" :: .id _ :: .sym "==" :: .num n :: .sym ")" :: r =>
